@@ -14,21 +14,27 @@ Lbl(a) == acts' = Append(acts, a)
 (* rollback targets worth trying: every root that ever got an id, plus the disk root *)
 Targets == (DOMAIN ids) \cup {disk.root}
 
-MCNext ==
-  \/ \E j \in 0..Len(chain) :
-       \E d \in DiffsOn(IF j = 0 THEN disk.root ELSE chain[j].root) :
-         \E n \in 0..1 : \E fs \in Flags(n) :
-            UpdateTo(j, d, fs) /\ Lbl([op |-> "Update", j |-> j, d |-> d])
-  \/ \E i \in 0..Len(chain) : CommitAt(i) /\ Lbl([op |-> "Commit", i |-> i])
-  \/ \E r \in Targets : RecoverTo(r) /\ Lbl([op |-> "Recover", w |-> r])
-  \/ \E i \in 0..Len(chain) : Reopen(i) /\ Lbl([op |-> "Reopen", i |-> i])
-  \/ Restart /\ Lbl([op |-> "Restart"])
+(* updates that change the state (no-op, duplicate and refused updates are exercised by the *)
+(* random histories of the driver)                                                          *)
+Upd == \E j \in 0..Len(chain) :
+         LET p == IF j = 0 THEN disk.root ELSE chain[j].root IN
+         \E d \in {x \in DiffsOn(p) : Over(p, x) # p} :
+           \E n \in 0..1 : \E fs \in Flags(n) :
+              UpdateTo(j, d, fs) /\ Lbl([op |-> "Update", j |-> j, d |-> d])
+Cmt == \E i \in 1..Len(chain) : \E sts \in Stales(i) : CommitAt(i, sts) /\ Lbl([op |-> "Commit", i |-> i])
+Rec == \E r \in Targets : RecoverTo(r) /\ Lbl([op |-> "Recover", w |-> r])
+Rst == \E i \in 0..(Len(chain) + 1) :
+         IF i <= Len(chain) THEN Reopen(i) /\ Lbl([op |-> "Reopen", i |-> i])
+                            ELSE Restart /\ Lbl([op |-> "Restart"])
+
+(* TLC's simulator picks a disjunct uniformly: repeating a disjunct weights it *)
+MCNext == Upd \/ Upd \/ Upd \/ Upd \/ Upd \/ Cmt \/ Rec \/ Rec \/ Rst
 
 MCSpec == MCInit /\ [][MCNext]_<<vars, acts>>
 
-MCView == <<cfg, chain, disk, buf, bufN, kv, ids, hist, zombies>>
+MCView == <<cfg, chain, disk, buf, bufN, kv, ids, hist, jr, zombies>>
 
 Emit == IF Len(acts) = Depth
-        THEN PrintT(<<"MBT", ToJson([cfg |-> cfg, nk |-> NK, acts |-> acts])>>)
+        THEN PrintT(<<"MBT", ToJson([cfg |-> cfg, nacc |-> NAcc, nslot |-> NSlot, acts |-> acts])>>)
         ELSE TRUE
 =============================================================================
